@@ -201,29 +201,30 @@ class Check:
         self.cov["negative_twins"].append({"twin": tag, "rejected_by": r.violated[0], "after_states": r.distinct})
         return r
 
-    def validate_trace(self, module, cfg, trace_file, n_events=None, env=None, timeout=1800, tag=None):
-        """Trace validation (binding T): returns (bad_indices, result). Raises Infra unless TLC consumed
-        the whole trace."""
-        e = {"TRACE_FILE": trace_file}
+    def validate_trace(self, module, cfg, trace_file, env=None, timeout=1800, tag=None):
+        """Trace validation (binding T). The trace spec is a total monitor that writes
+        [bad |-> ..., consumed |-> n, total |-> n] to RESULT_FILE when (and only when) it has consumed
+        every event. Returns (bad, result-record). Raises Infra unless the whole trace was consumed."""
+        tag = tag or module
+        resf = self.path(tag + ".result.json")
+        if os.path.exists(resf):
+            os.remove(resf)
+        e = {"TRACE_FILE": trace_file, "RESULT_FILE": resf}
         if env:
             e.update(env)
-        r = self.tlc(module, cfg, env=e, workers=1, timeout=timeout, tag=tag or module)
-        if r.violated or r.other_errors and not r.printed("BAD"):
-            raise Infra("trace validation %s failed to run:\n%s" % (module, r.out[-4000:]))
-        consumed = r.printed("CONSUMED")
-        if not consumed:
-            raise Infra("trace validation %s: no CONSUMED line:\n%s" % (module, r.out[-3000:]))
-        a, b = [int(x) for x in consumed[-1].split(",")]
-        if a != b:
-            raise Infra("trace validation %s consumed %d of %d events (monitor not total?):\n%s" % (module, a, b, r.out[-3000:]))
-        bads = r.printed("BAD")
-        if not bads:
-            raise Infra("trace validation %s: no BAD line:\n%s" % (module, r.out[-3000:]))
-        bad = parse_tla_value(bads[-1])
+        r = self.tlc(module, cfg, env=e, workers=1, timeout=timeout, tag=tag)
+        if r.violated or not r.no_error:
+            raise Infra("trace validation %s failed to run:\n%s" % (tag, r.out[-4000:]))
+        if not os.path.exists(resf):
+            raise Infra("trace validation %s did not consume the whole trace (monitor not total?):\n%s" % (tag, r.out[-3000:]))
+        with open(resf) as f:
+            res = json.load(f)
+        if res["consumed"] != res["total"]:
+            raise Infra("trace validation %s consumed %d of %d events" % (tag, res["consumed"], res["total"]))
         self.cov["states"] += r.distinct
         self.cov["transitions"] += r.generated
-        self.cov["model_runs"].append({"run": "trace:" + (tag or module), "events": b, "wall_s": round(r.wall, 1)})
-        return bad, r
+        self.cov["model_runs"].append({"run": "trace:" + tag, "events": res["total"], "wall_s": round(r.wall, 1)})
+        return res["bad"], res
 
     # ------------------------------------------------------------ verdicts
     def violation(self, what, replay):
